@@ -367,6 +367,10 @@ class ChangeScenario(Scenario):
             elif action == 'pause':
                 p = env.memo.get('pipeline')
                 env.loop.create_task(p.pause_toggle.turn_to(True), name='user pause')
+            elif action == 'pausestatus':     # the operator is told to pause in the very moment somebody touches the object
+                p = env.memo.get('pipeline')
+                env.loop.create_task(p.pause_toggle.turn_to(True), name='user pause')
+                w.merge(K, 'ns', args[0], {'status': {'foreign': args[1]}})
             elif action == 'resume':
                 p = env.memo.get('pipeline')
                 env.loop.create_task(p.pause_toggle.turn_to(False), name='user resume')
